@@ -343,7 +343,14 @@ def r4_lost_drop_is_recovered(ctx):
     c05.r3_lag_and_close(ctx)
 
 
-RULES = [r1_effect_summaries, r2_ledger, r3_notification_arms, r4_lost_drop_is_recovered]
+
+def rarr_every_element(ctx):
+    """an array message is processed element by element to the end"""
+    from .common import array_elements_all_processed
+    array_elements_all_processed(ctx.F, ctx.R, "C18.ARR")
+
+
+RULES = [r1_effect_summaries, r2_ledger, r3_notification_arms, r4_lost_drop_is_recovered, rarr_every_element]
 
 LEVEL_TEXT = (
     "A ledger over the client's four private tables decided from the type-checked program: per-method effect summaries "
